@@ -7,7 +7,9 @@ import (
 	"errors"
 	"fmt"
 	"os"
+	"os/exec"
 	"strings"
+	"sync"
 	"syscall"
 	"time"
 
@@ -54,9 +56,106 @@ func s5Files(n int, dir string) ([]*os.File, []uint64) {
 	return fs, ids
 }
 
+// c19ExecStorm: "close-on-exec on arrival" is only observable by somebody who execs at the wrong
+// moment. While one goroutine receives messages carrying 250 descriptors each, another keeps
+// starting a child program that lists what it inherited: no received descriptor may ever show up there.
+func c19ExecStorm(c *vcore.Ctx) *vcore.Violation {
+	const prop = "C19"
+	a, b, err := unixsocket.NewSocketPair()
+	if err != nil {
+		vcore.Harnessf("socketpair: %v", err)
+	}
+	defer a.Close()
+	defer b.Close()
+	tf, err := os.CreateTemp(c.Dir, "s5storm")
+	if err != nil {
+		vcore.Harnessf("tempfile: %v", err)
+	}
+	defer tf.Close()
+	os.Remove(tf.Name())
+	var st syscall.Stat_t
+	syscall.Fstat(int(tf.Fd()), &st)
+	marker := fmt.Sprint(st.Ino)
+	nmsg := 20 + c.Src.Int(40, "storm_messages")
+	c.Logf("exec storm: %d messages with 250 descriptors each are received while children are being started", nmsg)
+	c.Event("exec_storm")
+	c.Fault("exec_by_another_goroutine_during_receive")
+	c.MarkNonTrivial()
+	stop := make(chan struct{})
+	leak := make(chan string, 1)
+	var wg sync.WaitGroup
+	wg.Add(1)
+	children := 0
+	go func() {
+		defer wg.Done()
+		for {
+			select {
+			case <-stop:
+				return
+			default:
+			}
+			out, err := exec.Command(probePath, "fds", "700", "exit", "0").Output()
+			if err != nil {
+				continue
+			}
+			children++
+			for _, l := range strings.Split(string(out), "\n") {
+				f := strings.Fields(l)
+				if len(f) >= 4 && f[0] == "fd" && f[3] == marker {
+					select {
+					case leak <- l:
+					default:
+					}
+					return
+				}
+			}
+		}
+	}()
+	fds := make([]int, 250)
+	for i := range fds {
+		fds[i] = int(tf.Fd())
+	}
+	buf := make([]byte, 4096)
+	var verr *vcore.Violation
+	for i := 0; i < nmsg && verr == nil; i++ {
+		vcore.Heartbeat()
+		a.SetDeadline(time.Now().Add(20 * time.Second))
+		b.SetDeadline(time.Now().Add(20 * time.Second))
+		if err := a.SendMsg([]byte("storm"), unixsocket.Msg{Fds: fds}); err != nil {
+			verr = vcore.Violate(prop, "send_failed", "raw/storm", "send of 250 descriptors failed: %v", err)
+			break
+		}
+		_, m, err := b.RecvMsg(buf)
+		for _, fd := range m.Fds {
+			syscall.Close(fd)
+		}
+		if err != nil || len(m.Fds) != 250 {
+			verr = vcore.Violate(prop, "receive_failed", "raw/storm", "receive of 250 descriptors: %d arrived, err %v", len(m.Fds), err)
+		}
+	}
+	close(stop)
+	wg.Wait()
+	if verr != nil {
+		return verr
+	}
+	select {
+	case l := <-leak:
+		return vcore.Violate(prop, "not_cloexec_on_arrival", "raw/exec_during_receive", "a child program started by another goroutine while messages were being received inherited a received descriptor (%s): received descriptors are not close-on-exec from the moment they exist", l)
+	default:
+	}
+	c.Logf("%d children started, none inherited a received descriptor", children)
+	if children > 0 {
+		c.Probe("exec_storm_children")
+	}
+	return nil
+}
+
 func c19Run(c *vcore.Ctx) *vcore.Violation {
 	const prop = "C19"
 	src := c.Src
+	if src.Bool(1, 12, "exec_storm") {
+		return c19ExecStorm(c)
+	}
 	gob := src.Bool(1, 2, "layer_gob")
 	a, b, err := unixsocket.NewSocketPair()
 	if err != nil {
@@ -518,7 +617,7 @@ func init() {
 		Assumptions: []string{"sequential histories: the two ends are driven by one simulator thread, so the schedule is the operation order"},
 		Quick:       vcore.Budget{Wall: 25 * time.Second, Shards: 16},
 		Thorough:    vcore.Budget{Wall: 10 * time.Minute, Shards: 16},
-		Init:        func(dir, tier string) error { return nil },
+		Init:        func(dir, tier string) error { probePath = os.Getenv("VERIF_PROBE"); return nil },
 		Run:         c19Run, StallLimit: 60 * time.Second,
 	})
 }
